@@ -73,3 +73,14 @@ Definition bank_BlockedAddr (a : addr) : bool := blocked a.
 
 (* ---- addresses ---- *)
 Definition sdk_AccAddressFromBech32 (s : addr) : outcome addr := Ok s.
+
+Definition stream_ErrInvalidParams : Z := 40.     (* fmt.Errorf / errors.New in Params.Validate *)
+
+(* ---- genesis (keeper/genesis.go) ---- *)
+Definition stream_PANIC : Z := 21.
+(* the module account exists from InitChain on (maccPerms in app.go; a translator fact) *)
+Definition str_GetStreamModuleAccount (w : kworld) : go_modacc := Some STREAM_MACC.
+(* GetAllBalances: the positive balances of the account, in store order *)
+Definition bank_GetAllBalances (w : kworld) (a : addr) : list go_coin :=
+  map (fun kv => (snd (fst kv), snd kv)) (filter (fun kv => (fst (fst kv) =? a) && (0 <? snd kv)) (bal (kw_bank w))).
+Definition acc_SetModuleAccount (w : kworld) (m : go_modacc) : outcome (kworld * unit) := Ok (w, tt).
